@@ -18,6 +18,7 @@ pub mod c09;
 pub mod c12;
 pub mod c13;
 pub mod c15;
+pub mod c16;
 pub mod c18;
 pub mod crash;
 
@@ -35,6 +36,7 @@ pub fn check(prop: &str, tier: Tier) -> i32 {
 		"C12" => c12::check(tier),
 		"C13" => c13::check(tier),
 		"C15" => c15::check(tier),
+		"C16" => c16::check(tier),
 		"C18" => c18::check(tier),
 		_ => {
 			eprintln!("machinery: unknown property {prop}");
@@ -68,6 +70,7 @@ pub fn replay(prop: &str, file: &str) -> i32 {
 		"C12" => c12::replay(&r),
 		"C13" => c13::replay(&r),
 		"C15" => c15::replay(&r),
+		"C16" => c16::replay(&r),
 		"C18" => c18::replay(&r),
 		_ => {
 			eprintln!("machinery: no replay for {prop}");
@@ -79,6 +82,7 @@ pub fn replay(prop: &str, file: &str) -> i32 {
 pub fn worker(kind: &str, args: &[String]) -> i32 {
 	match kind {
 		"trace" => crate::crashx::worker_trace(&args[0]),
+		"c16" => c16::worker(args),
 		_ => 2,
 	}
 }
